@@ -355,6 +355,26 @@ def shard_isolated(ctx, k, payload):
 
 # ---------------------------------------------------------------------------
 # (B) end to end
+def tax_fn(year, r):
+    """the year's income tax for this return's filing status, from the harness' own rate-schedule reference"""
+    from hx import taxref
+    try:
+        status = r.store.config.get('1040', 'filing_status').strip()
+    except Exception:
+        return None
+    status = 'QSS' if status.startswith('Qualifying') else status
+    if status not in taxref.STATUSES:
+        return None
+
+    def tax(amount):
+        if amount < 0 or amount != amount:
+            return None
+        from fractions import Fraction
+        want, _tol = taxref.reference(year, status, Fraction(str(round(amount, 2))))
+        return float(want)
+    return tax
+
+
 def check_solution(ctx, year, r, case):
     cat = catalog.get(year)
     vals = r.values
@@ -387,11 +407,15 @@ def check_solution(ctx, year, r, case):
                         if any(':' in f for f in inst_present):
                             skip = True
                         want = float(vals.get(f'{src_form}.{e[2]}', 0.0) or 0.0)
+                elif e[0] == 'addf':
+                    if ':' in fname or any(':' in f for f in r.forms if f.split(':')[0] == e[1]):
+                        skip = True
+                    want = sum(float(vals.get(f'{e[1]}.{l}', 0.0) or 0.0) for l in e[2])
                 else:
                     if e[0] == 'sub' and e[3] is None and get(e[2]) < get(e[1]):
                         skip = True
                         ctx.count('e2e:plain_subtraction_negative_skipped')
-                    want = None if skip else instr.evaluate(e, get)
+                    want = None if skip else instr.evaluate(e, get, tax=tax_fn(year, r))
                 if not skip and want is not None:
                     ctx.case()
                     got = float(vals[name])
